@@ -363,8 +363,8 @@ def run(jobs: int, only: str | None, limit: int | None, files: str | None) -> in
     return 0
 
 
-def report() -> int:
-    rs = [json.loads(l) for l in (WORK / "results.jsonl").read_text(encoding="utf-8").splitlines()]
+def report(fname: str = "results.jsonl") -> int:
+    rs = [json.loads(l) for l in (WORK / fname).read_text(encoding="utf-8").splitlines()]
     killed = [r for r in rs if r["status"] == "killed"]
     surv = [r for r in rs if r["status"] == "survived"]
     fired = [r for r in surv if any(c["rc"] == 1 for c in r["checks"].values())]
@@ -380,12 +380,109 @@ def report() -> int:
     return 0
 
 
+def recheck(jobs: int) -> int:
+    """Second pass: the survivors of a finished sweep (taken on a frozen base with a frozen copy of the checks) are applied to
+    the CURRENT /repo - offsets mapped through a diff of the two versions of each file - and judged by the CURRENT checks.
+    Mutants whose region was changed by a repair are dropped."""
+    import difflib
+    old_base = Path(os.environ.get("MUTSWEEP_BASE", "/repo"))
+    new_base = Path("/repo")
+    rs = [json.loads(l) for l in (WORK / "results.jsonl").read_text(encoding="utf-8").splitlines()]
+    surv = [r for r in rs if r["status"] == "survived"]
+    maps: dict[str, list] = {}
+
+    def mapper(f: str):
+        if f not in maps:
+            a = (old_base / f).read_bytes()
+            b = (new_base / f).read_bytes()
+            sm = difflib.SequenceMatcher(None, a.split(b"\n"), b.split(b"\n"), autojunk=False)
+            # line-level equal blocks -> byte offsets
+            al, bl = a.split(b"\n"), b.split(b"\n")
+            ao = [0]
+            for ln in al:
+                ao.append(ao[-1] + len(ln) + 1)
+            bo = [0]
+            for ln in bl:
+                bo.append(bo[-1] + len(ln) + 1)
+            blocks = [(ao[i], ao[i + n], bo[j]) for i, j, n in sm.get_matching_blocks() if n]
+            maps[f] = blocks
+        return maps[f]
+
+    todo = []
+    dropped = 0
+    for r in surv:
+        blocks = mapper(r["file"])
+        hit = next(((s0, e0, t0) for s0, e0, t0 in blocks if s0 <= r["a"] and r["b"] <= e0), None)
+        if hit is None:
+            dropped += 1
+            continue
+        m = dict(r)
+        m["a"] = r["a"] - hit[0] + hit[2]
+        m["b"] = r["b"] - hit[0] + hit[2]
+        m.pop("checks", None)
+        todo.append(m)
+    out_f = WORK / "recheck.jsonl"
+    done = set()
+    if out_f.exists():
+        done = {json.loads(l)["id"] for l in out_f.read_text(encoding="utf-8").splitlines()}
+    todo = [m for m in todo if m["id"] not in done]
+    print(len(surv), "survivors,", dropped, "dropped (region repaired),", len(todo), "to re-check", flush=True)
+    q: Queue = Queue()
+    for i in range(jobs):
+        w = WORK / f"r{i}"
+        if w.exists():
+            shutil.rmtree(w)
+        shutil.copytree(new_base / "src", w / "src", ignore=shutil.ignore_patterns("__pycache__", "*.pyc"))
+        q.put(w)
+
+    def job(m):
+        w = q.get()
+        path = w / m["file"]
+        orig = (new_base / m["file"]).read_bytes()
+        try:
+            new_src = orig[:m["a"]] + m["new"].encode("utf-8") + orig[m["b"]:]
+            try:
+                ast.parse(new_src)
+            except SyntaxError:
+                return dict(m, status="unmappable")
+            path.write_bytes(new_src)
+            checks = {}
+            env2 = dict(os.environ, VERIF_REPO=str(w), VERIF_SELFTEST="1")
+            for i in range(1, 21):
+                pid = f"C{i:02d}"
+                cp = subprocess.run(["/venv/bin/python", str(HERE / "check.py"), pid, "--tier", "quick"], capture_output=True, text=True,
+                                    env=env2, cwd=str(HERE))
+                o = cp.stdout + cp.stderr
+                if cp.returncode == 0 and "VIOLATION" not in o:
+                    continue
+                rules = sorted({l.split()[1] for l in o.splitlines() if l.startswith("REPORT ")})
+                first = next((l for l in o.splitlines() if l.startswith(("REPORT ", "ANALYSIS-ERROR"))), "")
+                checks[pid] = {"rc": cp.returncode, "rules": rules, "first": first[:400]}
+            return dict(m, status="survived", checks=checks)
+        finally:
+            path.write_bytes(orig)
+            q.put(w)
+
+    n = 0
+    with ThreadPoolExecutor(jobs) as ex, out_f.open("a", encoding="utf-8") as out:
+        for r in ex.map(job, todo):
+            out.write(json.dumps(r) + "\n")
+            out.flush()
+            n += 1
+            if n % 50 == 0:
+                print(n, "done", flush=True)
+    for i in range(jobs):
+        shutil.rmtree(WORK / f"r{i}", ignore_errors=True)
+    return 0
+
+
 if __name__ == "__main__":
     ap = argparse.ArgumentParser()
-    ap.add_argument("cmd", choices=["gen", "run", "report"])
+    ap.add_argument("cmd", choices=["gen", "run", "report", "recheck"])
+    ap.add_argument("--file", default="results.jsonl")
     ap.add_argument("-j", type=int, default=16)
     ap.add_argument("-k", default=None)
     ap.add_argument("-n", type=int, default=None)
     ap.add_argument("-f", default=None)
     a = ap.parse_args()
-    sys.exit({"gen": gen, "run": lambda: run(a.j, a.k, a.n, a.f), "report": report}[a.cmd]())
+    sys.exit({"gen": gen, "run": lambda: run(a.j, a.k, a.n, a.f), "report": lambda: report(a.file), "recheck": lambda: recheck(a.j)}[a.cmd]())
